@@ -10,7 +10,12 @@ wt=/tmp/ac-$label
 git -C /repo worktree remove --force $wt 2>/dev/null
 git -C /repo worktree add -q $wt HEAD || exit 2
 if ! git -C $wt apply "$patch"; then echo "$label: PATCH DOES NOT APPLY"; git -C /repo worktree remove --force $wt; exit 2; fi
-cd /verif
+# the checks run from a snapshot of the committed /verif, so that work in progress in /verif does not leak in
+snap=/tmp/verif-snap-$label
+git -C /verif worktree remove --force $snap 2>/dev/null
+git -C /verif worktree add -q --detach $snap HEAD || exit 2
+mkdir -p $snap/bin && cp /verif/bin/overlaygen $snap/bin/ 2>/dev/null
+cd $snap
 for id in $ids; do
   out=$(VERIF_REPO=$wt VERIF_OUT_DIR=/verif/build/allcheck-out VERIF_TIMEOUT=1500 ./check.sh $id quick 2>&1)
   rc=$?
@@ -23,3 +28,4 @@ for id in $ids; do
   fi
 done
 git -C /repo worktree remove --force $wt
+git -C /verif worktree remove --force $snap
